@@ -1,4 +1,7 @@
 """C13 - no bytecode input makes loader, verifier or VM misbehave (DESIGN 5/C13)."""
+import os, sys
+sys.path.insert(0, os.path.dirname(os.path.abspath(__file__)))
+import vmstep
 META = {
     "level": "proof",
     "trusted_base": ["contracts/nvm_contracts.h, contracts/verifier_contracts.h, contracts/isa_contracts.h"],
@@ -37,8 +40,17 @@ def loader_obligations(prop):
     return obs
 
 
+def step_obligations(prop="C13"):
+    obs = []
+    for op in vmstep.OPC:
+        if op in ("CALL_EXTERN", "CALL_MODULE"):
+            continue          # C13 is about import-free, single modules (the property excludes external imports)
+        obs.append(vmstep.step(prop, "%s.step.%s" % (prop, op), "h_step", op, must_have=[r"C13\.step", r"COVER"], timeout=600))
+    return obs
+
+
 def obligations(repo):
-    obs = loader_obligations("C13")
+    obs = loader_obligations("C13") + step_obligations()
     obs.append(dict(id="C13.verify.structure", prop="C13", harness=VER, entry="h_structure", annotate=VANN,
                     enforce="verify_structure", loops=True, unwind="auto", strength="U", functions=["verify_structure"],
                     must_have=[r"verify_structure\.postcondition", r"loop_invariant_step", r"decreases"], min_checks=20))
